@@ -261,6 +261,200 @@ theorem calls_first_error (p : Params) (pre : List (Method × List UInt8)) (m : 
       simp only at h2 herr ⊢
       exact ih s' (acc ++ es) h2 herr
 
+/-! ### what a failed call leaves in the iovec -/
+
+/-- One input byte; the output is reported also when the step fails (`BeforeChunk::decode`
+pushes the owed stuff sequence before it validates the header byte). -/
+def stepBE (p : Params) (s : DecState) (b : UInt8) : List UInt8 × Except DecErr DecState :=
+  match s with
+  | .beforeChunk ins =>
+    (if ins then [FE, FD] else [],
+      if b.toNat ≥ p.radix then .error (.invalidHeaderByte false b) else .ok (.midHeader b))
+  | _ =>
+    match stepB p s b with
+    | .error e => ([], .error e)
+    | .ok (s', o) => (o, .ok s')
+
+/-- Byte-at-a-time run that keeps the output produced before (and at) the error point. -/
+def foldBE (p : Params) : DecState → List UInt8 → List UInt8 × Except DecErr DecState
+  | s, [] => ([], .ok s)
+  | s, b :: rest =>
+    match stepBE p s b with
+    | (o, .error e) => (o, .error e)
+    | (o, .ok s') => (o ++ (foldBE p s' rest).1, (foldBE p s' rest).2)
+
+/-- sequencing for `foldBE` results -/
+def thenE (r : List UInt8 × Except DecErr DecState) (k : DecState → List UInt8 × Except DecErr DecState) :
+    List UInt8 × Except DecErr DecState :=
+  match r with
+  | (o, .error e) => (o, .error e)
+  | (o, .ok s') => (o ++ (k s').1, (k s').2)
+
+theorem foldBE_cons (p : Params) (s : DecState) (b : UInt8) (rest : List UInt8) :
+    foldBE p s (b :: rest) = thenE (stepBE p s b) (fun s' => foldBE p s' rest) := by
+  simp only [foldBE, thenE]
+
+theorem thenE_assoc (r k1 k2) : thenE (thenE r k1) k2 = thenE r (fun s => thenE (k1 s) k2) := by
+  obtain ⟨o, r⟩ := r
+  cases r with
+  | error e => rfl
+  | ok s =>
+    simp only [thenE]
+    cases h1 : k1 s with
+    | mk o1 r1 =>
+      cases r1 with
+      | error e => rfl
+      | ok s1 =>
+        simp only
+        cases h2 : k2 s1 with
+        | mk o2 r2 => cases r2 <;> simp [List.append_assoc]
+
+theorem foldBE_append (p : Params) (s : DecState) (a b : List UInt8) :
+    foldBE p s (a ++ b) = thenE (foldBE p s a) (fun s' => foldBE p s' b) := by
+  induction a generalizing s with
+  | nil =>
+    simp only [List.nil_append, foldBE, thenE, List.nil_append]
+  | cons x t ih =>
+    simp only [List.cons_append, foldBE_cons, thenE_assoc]
+    congr 1
+    funext s'
+    exact ih s'
+
+theorem foldBE_inChunk (p : Params) (rem : Nat) (term : Bool) (inp : List UInt8) (hrem : 0 < rem) :
+    foldBE p (.inChunk rem term) inp =
+      thenE (inp.take (min inp.length rem),
+          .ok (if min inp.length rem < rem then DecState.inChunk (rem - min inp.length rem) term
+               else DecState.beforeChunk term))
+        (fun s' => foldBE p s' (inp.drop (min inp.length rem))) := by
+  induction inp generalizing rem with
+  | nil =>
+    have : min ([] : List UInt8).length rem = 0 := by simp
+    simp [hrem, foldBE, thenE]
+  | cons b t ih =>
+    by_cases h1 : 1 < rem
+    · have ih' := ih (rem - 1) (by omega)
+      have hk : min (b :: t).length rem = min t.length (rem - 1) + 1 := by
+        simp only [List.length_cons]; omega
+      rw [foldBE_cons, hk]
+      simp only [stepBE, stepB, if_pos h1, thenE, List.take_succ_cons, List.drop_succ_cons]
+      rw [ih']
+      have hc : (min t.length (rem - 1) + 1 < rem) = (min t.length (rem - 1) < rem - 1) := by
+        apply propext; omega
+      have hs : rem - (min t.length (rem - 1) + 1) = rem - 1 - min t.length (rem - 1) := by omega
+      simp only [thenE, hc, hs]
+      cases foldBE p (if min t.length (rem - 1) < rem - 1 then DecState.inChunk (rem - 1 - min t.length (rem - 1)) term
+          else DecState.beforeChunk term) (List.drop (min t.length (rem - 1)) t) with
+      | mk o r => cases r <;> simp
+    · have hr : rem = 1 := by omega
+      subst hr
+      have hk : min (b :: t).length 1 = 1 := by simp only [List.length_cons]; omega
+      rw [foldBE_cons, hk]
+      simp [stepBE, stepB, thenE]
+
+/-- A call's result with the emits of both outcomes turned into bytes. -/
+def projE (r : Except (DecErr × List Emit) (DecState × List Emit)) : List UInt8 × Except DecErr DecState :=
+  match r with
+  | .error (e, es) => (emitBytes es, .error e)
+  | .ok (s, es) => (emitBytes es, .ok s)
+
+theorem once_specE (p : Params) (m : Method) (s : DecState) (b : UInt8) (rest : List UInt8) (hs : WF s) :
+    match Dec.once p m s b rest with
+    | .error (e, es) => foldBE p s (b :: rest) = (emitBytes es, .error e)
+    | .ok o => foldBE p s (b :: rest) =
+        thenE (emitBytes o.emits, .ok o.st) (fun s' => foldBE p s' ((b :: rest).drop o.consumed)) := by
+  cases s with
+  | initial =>
+    simp only [Dec.once, foldBE_cons, stepBE, stepB]
+    by_cases h1 : b.toNat > p.maxInit
+    · simp [h1, thenE, emitBytes, opsBytes]
+    · by_cases h2 : b.toNat > 0 <;> simp [h1, h2, thenE, emitBytes, opsBytes]
+  | beforeChunk ins =>
+    simp only [Dec.once, foldBE_cons, stepBE]
+    by_cases h1 : b.toNat ≥ p.radix
+    · cases ins <;> simp [h1, thenE, emitBytes, opsBytes]
+    · cases ins <;> simp [h1, thenE, emitBytes, opsBytes]
+  | midHeader b0 =>
+    simp only [Dec.once, foldBE_cons, stepBE, stepB]
+    by_cases h1 : b.toNat ≥ p.radix
+    · simp [h1, thenE, emitBytes, opsBytes]
+    · by_cases h2 : b0.toNat + b.toNat * p.radix > p.maxSub
+      · simp [h1, h2, thenE, emitBytes, opsBytes]
+      · by_cases h3 : b0.toNat + b.toNat * p.radix > 0 <;> simp [h1, h2, h3, thenE, emitBytes, opsBytes]
+  | inChunk rem term =>
+    have hrem : 0 < rem := hs
+    simp only [Dec.once]
+    rw [foldBE_inChunk p rem term (b :: rest) hrem]
+    simp [emitBytes, opsBytes]
+
+theorem feed_eq_foldBE (p : Params) (m : Method) (fuel : Nat) (s : DecState) (input : List UInt8)
+    (hs : WF s) (hf : input.length < fuel) :
+    projE (Dec.feed p m fuel s input) = foldBE p s input := by
+  induction fuel generalizing s input with
+  | zero => omega
+  | succ fuel ih =>
+    cases input with
+    | nil => simp [Dec.feed, projE, foldBE]
+    | cons b rest =>
+      have hsp := once_specE p m s b rest hs
+      have hsp0 := once_spec p m s b rest hs
+      cases ho : Dec.once p m s b rest with
+      | error ee =>
+        obtain ⟨e, es⟩ := ee
+        rw [ho] at hsp
+        simp only at hsp
+        simp only [Dec.feed, ho, projE, hsp]
+      | ok o =>
+        rw [ho] at hsp hsp0
+        simp only at hsp hsp0
+        obtain ⟨hc0, hc1, hwf, _, _⟩ := hsp0
+        have hlen : ((b :: rest).drop o.consumed).length < fuel := by
+          simp only [List.length_drop, List.length_cons] at *; omega
+        have ih1 := ih o.st ((b :: rest).drop o.consumed) hwf hlen
+        simp only [Dec.feed, ho]
+        rw [hsp]
+        simp only [thenE]
+        rw [← ih1]
+        cases hr : Dec.feed p m fuel o.st (List.drop o.consumed (b :: rest)) with
+        | error ee => obtain ⟨e, es⟩ := ee; simp [projE, emitBytes_append]
+        | ok se => obtain ⟨s1, es1⟩ := se; simp [projE, emitBytes_append]
+
+/-- Successful calls, then one more call (failing or not): the bytes pushed so far and the
+outcome are the byte-at-a-time run over the concatenated input. -/
+theorem calls_then_call_foldBE (p : Params) (hp : p.Valid) (pre : List (Method × List UInt8)) (m : Method)
+    (d : List UInt8) (s : DecState) (hs : WF32 s)
+    (hpre : ∀ v ∈ (Dec.calls p s pre).verdicts, v = none) :
+    (emitBytes ((Dec.calls p s pre).emits ++ (Dec.call p m (Dec.calls p s pre).st d).emits),
+      (match (Dec.call p m (Dec.calls p s pre).st d).err with
+       | some e => Except.error e
+       | none => Except.ok (Dec.call p m (Dec.calls p s pre).st d).st))
+      = foldBE p s ((pre.map (·.2)).flatten ++ d) := by
+  induction pre generalizing s with
+  | nil =>
+    simp only [Dec.calls, List.map_nil, List.flatten_nil, List.nil_append]
+    have := feed_eq_foldBE p m (d.length + 1) s d (wf_of_wf32 hs) (by omega)
+    rw [← this]
+    unfold Dec.call Dec.feedAll
+    cases Dec.feed p m (d.length + 1) s d with
+    | error ee => obtain ⟨e, es⟩ := ee; rfl
+    | ok se => obtain ⟨s', es⟩ := se; rfl
+  | cons md rest ih =>
+    obtain ⟨m0, d0⟩ := md
+    simp only [Dec.calls, List.mem_cons, forall_eq_or_imp] at hpre
+    obtain ⟨h1, h2⟩ := hpre
+    have hf0 := feed_eq_foldBE p m0 (d0.length + 1) s d0 (wf_of_wf32 hs) (by omega)
+    simp only [Dec.calls, List.map_cons, List.flatten_cons, List.append_assoc]
+    rw [foldBE_append, ← hf0]
+    have hwf := call_wf32 p hp m0 s d0 hs
+    have ih' := ih (Dec.call p m0 s d0).st hwf h2
+    unfold Dec.call Dec.feedAll at h1 ih' ⊢
+    cases hfe : Dec.feed p m0 (d0.length + 1) s d0 with
+    | error ee => obtain ⟨e, es⟩ := ee; rw [hfe] at h1; simp at h1
+    | ok se =>
+      obtain ⟨s', es⟩ := se
+      rw [hfe] at ih'
+      simp only at ih' ⊢
+      simp only [projE, thenE, ← ih', emitBytes_append]
+
 end DecProof
 
 /-! ### Encoder -/
